@@ -27,15 +27,20 @@ TRACE = "StmtTrace"
 # ------------------------------------------------------------------------------------------------
 # scenarios (single source of truth for TLC constants and the harness)
 # ------------------------------------------------------------------------------------------------
-def pod(job, kind, cpu, st="Pending", node="", groups=(), gpu=1, frac=500):
+def pod(job, kind, cpu, st="Pending", node="", groups=(), gpu=1, frac=500, mem=0):
+    """kind: whole (gpu devices) | frac (gpu-fraction annotation, frac/1000 of a device) | mem (gpu-memory annotation, MiB)"""
     if kind == "whole":
         return dict(job=job, kind="whole", gpu=gpu, gq=1000 * gpu, mem=0, cpu=cpu, st=st, node=node, groups=list(groups))
-    return dict(job=job, kind="frac", gpu=0, gq=frac, mem=frac // 10, cpu=cpu, st=st, node=node, groups=list(groups))
+    if kind == "mem":
+        return dict(job=job, kind="mem", gpu=0, gq=0, mem=mem, cpu=cpu, st=st, node=node, groups=list(groups))
+    return dict(job=job, kind="frac", gpu=0, gq=frac, mem=0, cpu=cpu, st=st, node=node, groups=list(groups))
 
 
 def scenario(nodes, queues, jobs, pods, groups):
     for i, p in enumerate(sorted(pods)):
         pods[p]["ord"] = i + 1
+    for n in nodes.values():
+        n.setdefault("gmem", 100)       # no nvidia.com/gpu.memory label: the code's default of 100 units per device
     return dict(nodes=nodes, queues=queues, jobs=jobs, pods=pods, groups=list(groups))
 
 
@@ -67,6 +72,17 @@ SCN_SHARE = scenario(
     jobs={"j1": dict(queue="q1", np=0, min=1), "j2": dict(queue="q2", np=1, min=1), "j3": dict(queue="q1", np=0, min=1)},
     pods={"p1": pod("j1", "frac", 500, "Running", "n1", ["g1"], frac=250), "p2": pod("j2", "frac", 500, "Running", "n1", ["g1"]),
           "p3": pod("j3", "whole", 1000), "p4": pod("j3", "whole", 1000, "Releasing", "n2"), "p5": pod("j1", "frac", 500)},
+    groups=["g1", "g2", "g3"])
+
+
+# M: gpu-memory requests on nodes whose devices have different memory sizes (the accepted GPU quota, which the
+# queues are charged with, depends on the node: 4000 MiB is half a device on n1 and a quarter on n2)
+SCN_MEM = scenario(
+    nodes={"n1": dict(gpu=2, cpu=4000, gmem=8000), "n2": dict(gpu=2, cpu=4000, gmem=16000)},
+    queues=QUEUES,
+    jobs={"j1": dict(queue="q1", np=0, min=1), "j2": dict(queue="q2", np=1, min=1)},
+    pods={"p1": pod("j1", "mem", 1000, "Running", "n1", ["g1"], mem=4000), "p2": pod("j1", "mem", 1000, mem=2000),
+          "p3": pod("j2", "frac", 500, "Running", "n2", ["g2"]), "p4": pod("j2", "whole", 1000)},
     groups=["g1", "g2", "g3"])
 
 
@@ -109,7 +125,7 @@ def model_check(ctx, name, scn, bounds, prefixes, workers=None, timeout=2400, he
     """exhaustive TLC run of Stmt on one scenario: design check. A counterexample here is only a
     prediction (returned as list of violated names); the real code is judged by the traces."""
     d = vlib.prepare_spec_dir(ctx, "mc-" + name)
-    consts = dict(bounds, Cfg=tla(scn))
+    consts = dict(bounds, Cfg=tla(scn), **code_variant())
     names = model_invariants(prefixes)
     invs = ["TypeOK"] + [n for n in names if n not in ACTION_PROPS]
     props = [n for n in names if n in ACTION_PROPS]
@@ -155,7 +171,7 @@ def compact(l):
 def export_paths(ctx, name, scn, bounds, timeout=2400, heap="6g"):
     """every transition of the state graph as a labelled path from Init (BFS tree path + the edge)."""
     d = vlib.prepare_spec_dir(ctx, "gen-" + name)
-    consts = dict(bounds, Cfg=tla(scn))
+    consts = dict(bounds, Cfg=tla(scn), **code_variant())
     mod, cfg = vlib.write_model(d, MODULE, "Stmt_gen", consts, spec="Spec", action_constraints=["PathOut"], view="view")
     r = vlib.tlc(ctx, d, mod, cfg, workers=1, timeout=timeout, heap=heap)
     if not r.ok:
@@ -198,6 +214,13 @@ def replay_paths(ctx, binary, name, scn, leaves):
 TV_CONSTS = dict(Cfg="0", MaxOps="0", MaxFail="0", MaxStmts="0")
 
 
+def code_variant():
+    """behaviour switches of Stmt.tla that follow the source under check (transitional: a repair of Commit's failed-bind
+    path may or may not be in the tree)."""
+    src = open(os.path.join(vlib.REPO, "pkg/scheduler/framework/statement.go")).read()
+    return dict(BindFailUndoesRest="TRUE" if "undoOperationsFrom(i + 1)" in src else "FALSE")
+
+
 def features(prefix):
     """risk features of a trace prefix (Scenario event first)."""
     f = set()
@@ -206,7 +229,7 @@ def features(prefix):
     for e in prefix[1:]:
         if e["ev"] == "Call" and e["op"] == "Pipeline" and state is not None:
             on = state["nodes"].get(e["node"], {}).get("pods", {}).get(e["p"], {})
-            if cfg.get("pods", {}).get(e["p"], {}).get("kind") == "frac" and on.get("st", "none") != "none" and on.get("groups") != e["g"]:
+            if cfg.get("pods", {}).get(e["p"], {}).get("kind") in ("frac", "mem") and on.get("st", "none") != "none" and on.get("groups") != e["g"]:
                 f.add("movegpu")          # an evicted shared pod re-nominated onto another GPU of its node (finding F14)
         if e["ev"] == "Call" and e["op"] == "Convert":
             f.add("convert")
@@ -258,6 +281,11 @@ def diff_classes(prefix):
         if parts[0] == "pods" and parts[-1] == "groups":
             stk = ".".join(parts[:-1] + ["st"])
             if json.loads(a[stk]) == "Pending" and json.loads(b.get(stk, '""')) == "Pending":
+                continue
+        if parts[0] == "pods" and parts[-1] == "acc":
+            stk = ".".join(parts[:-1] + ["st"])
+            held = ("Allocated", "Pipelined", "Binding", "Bound", "Running")
+            if json.loads(a[stk]) not in held and json.loads(b.get(stk, '""')) not in held:
                 continue
         out.add(".".join([parts[0]] + [x for x in parts[2:] if not re.fullmatch(r"[pgnjqd]\d+", x)]))
     return sorted(out)
@@ -313,7 +341,7 @@ def validate(ctx, trace_path, prefixes, label, timeout=3000, heap="8g", per_sign
         raise vlib.Infra("StmtTrace!Report does not evaluate %s" % (missing or prefixes))
     d = vlib.prepare_spec_dir(ctx, "tv-" + label)
     os.symlink(os.path.abspath(trace_path), os.path.join(d, "trace.ndjson"))
-    mod, cfg = vlib.write_model(d, TRACE, TRACE + "_tv", dict(TV_CONSTS, StopOn=json.dumps(stop)), spec="TraceSpec",
+    mod, cfg = vlib.write_model(d, TRACE, TRACE + "_tv", dict(TV_CONSTS, StopOn=json.dumps(stop), **code_variant()), spec="TraceSpec",
                                 constraints=["Report"])
     r = vlib.tlc(ctx, d, mod, cfg, workers=min(vlib.NCPU, 8), timeout=timeout, heap=heap)
     if not r.ok:
@@ -397,13 +425,15 @@ def count_cases(ctx, trace_path, sample_every=499):
 
 def plans_for(ctx):
     if ctx.quick:
-        return ([("A", SCN_WHOLE, dict(MaxOps=4, MaxFail=1, MaxStmts=1), 800),
-                 ("B", SCN_FRAC, dict(MaxOps=4, MaxFail=1, MaxStmts=1), 1200)], 130, 50)
+        return ([("A", SCN_WHOLE, dict(MaxOps=4, MaxFail=1, MaxStmts=1), 600),
+                 ("B", SCN_FRAC, dict(MaxOps=4, MaxFail=1, MaxStmts=1), 900),
+                 ("M", SCN_MEM, dict(MaxOps=3, MaxFail=1, MaxStmts=1), 600)], 110, 50)
     # measured (TLC, 4 workers): A/6 67,073 distinct states 35 s; A2 41,468 / 37 s; B/5 69,769 / 43 s; C/4 47,602 / 33 s
     return ([("A", SCN_WHOLE, dict(MaxOps=6, MaxFail=1, MaxStmts=1), 5000),
              ("A2", SCN_WHOLE, dict(MaxOps=3, MaxFail=2, MaxStmts=2), 5000),
              ("B", SCN_FRAC, dict(MaxOps=5, MaxFail=1, MaxStmts=1), 6000),
-             ("C", SCN_SHARE, dict(MaxOps=4, MaxFail=1, MaxStmts=1), 5000)], 800, 100)
+             ("C", SCN_SHARE, dict(MaxOps=4, MaxFail=1, MaxStmts=1), 5000),
+             ("M", SCN_MEM, dict(MaxOps=4, MaxFail=1, MaxStmts=1), 5000)], 800, 100)
 
 
 def run_stage(ctx, prefixes):
